@@ -137,7 +137,7 @@ pub fn all_arg_cases() -> Vec<ArgCase> {
             }
         }
         if takes_base(func) {
-            for b in [0u64, 1, u64::MAX, PATHRS_PROC_SELF + 1, PATHRS_PROC_SELF - 1, PATHRS_PROC_ROOT ^ 1, 0x5001_FFFF_0000_0000, PATHRS_PROC_THREAD_SELF << 32] {
+            for b in [0u64, 1, u64::MAX, PATHRS_PROC_SELF + 1, PATHRS_PROC_SELF - 1, PATHRS_PROC_ROOT ^ 1, 0x5001_FFFF_0000_0000, PATHRS_PROC_THREAD_SELF << 32, PATHRS_PROC_SELF | 1 << 32, PATHRS_PROC_ROOT | 1 << 63, PATHRS_PROC_THREAD_SELF | 0xdead << 32, PATHRS_PROC_SELF | 0xffff_ffff << 32, PATHRS_PROC_ROOT | 1 << 31 << 1] {
                 v.push(ArgCase { base: Some(b), ..valid.clone() });
             }
         }
@@ -617,7 +617,7 @@ fn run_lane(ctx: &Ctx, lr: &mut LaneResult) {
     if !lr.violations.is_empty() {
         return;
     }
-    let two = (0usize..FUNCS.len(), 0u8..6, 0u8..3, 0u8..3, proptest::option::of(any::<u64>()), proptest::option::of(any::<u32>())).prop_map(|(f, fd, p, p2, base, mode)| {
+    let two = (0usize..FUNCS.len(), 0u8..6, 0u8..3, 0u8..3, proptest::option::of(prop_oneof![any::<u64>(), (1u64..=u32::MAX as u64, 0usize..3).prop_map(|(hi, k)| [PATHRS_PROC_ROOT, PATHRS_PROC_SELF, PATHRS_PROC_THREAD_SELF][k] | hi << 32)]), proptest::option::of(any::<u32>())).prop_map(|(f, fd, p, p2, base, mode)| {
         let fdc = [FdClass::Valid, FdClass::MinusOne, FdClass::MinusEbadf, FdClass::IntMin, FdClass::AtFdcwd, FdClass::Closed][fd as usize];
         let pc = [PathClass::Valid, PathClass::Null, PathClass::Empty];
         let func = FUNCS[f];
@@ -635,7 +635,7 @@ fn replay(_ctx: &Ctx, _check: &str, case: &Value) -> Result<(), Fail> {
 pub const PROP: Prop = Prop {
     id: "C17",
     level: "exploration",
-    rule: "(a) enumerated completely: each of the 18 argument-taking C functions x each single invalid argument class {descriptor -1, -EBADF, INT_MIN, AT_FDCWD, a closed descriptor number; NULL path; (empty path as a valid one); 8 unknown procfs base values incl. valid+-1 and values that only differ in the upper 32 bits; modes with setuid/setgid/type bits for mkdir_all; S_IFSOCK, S_IFLNK, typeless and garbage modes for mknod}, every other argument valid, plus the all-valid call; (b) enumerated completely: pathrs_inroot_readlink for every link-body length 1..64 x every buffer size 0..length+3, NULL buffer with size 0 and with a non-zero size; pathrs_proc_readlink for fd links with target paths of 40..4000 bytes x {0,1,len-1,len,len+1,len+3,NULL}; (c) sampled: body lengths up to 4095 x arbitrary sizes, and calls with several invalid arguments at once. Oracle: invalid => return value < -4095 whose errorinfo says EINVAL (EBADF for a closed descriptor, ENOSYS for S_IFSOCK), tree unchanged, descriptor table unchanged (nothing lent is closed or replaced, nothing new except a returned descriptor); readlink returns the full length, copies exactly min(length, size) bytes, every other byte of two canary pages is untouched and the buffer ends flush against a PROT_NONE page, so an overrun by one byte kills the child (crash = violation). non-trivial = calls with an invalid argument, and all buffer cases",
+    rule: "(a) enumerated completely: each of the 18 argument-taking C functions x each single invalid argument class {descriptor -1, -EBADF, INT_MIN, AT_FDCWD, a closed descriptor number; NULL path; (empty path as a valid one); 13 unknown procfs base values incl. valid+-1, valid constants moved to the upper half, and valid constants in the lower half with garbage in the upper half (what a caller passing the base through a 32-bit type produces); modes with setuid/setgid/type bits for mkdir_all; S_IFSOCK, S_IFLNK, typeless and garbage modes for mknod}, every other argument valid, plus the all-valid call; (b) enumerated completely: pathrs_inroot_readlink for every link-body length 1..64 x every buffer size 0..length+3, NULL buffer with size 0 and with a non-zero size; pathrs_proc_readlink for fd links with target paths of 40..4000 bytes x {0,1,len-1,len,len+1,len+3,NULL}; (c) sampled: body lengths up to 4095 x arbitrary sizes, and calls with several invalid arguments at once. Oracle: invalid => return value < -4095 whose errorinfo says EINVAL (EBADF for a closed descriptor, ENOSYS for S_IFSOCK), tree unchanged, descriptor table unchanged (nothing lent is closed or replaced, nothing new except a returned descriptor); readlink returns the full length, copies exactly min(length, size) bytes, every other byte of two canary pages is untouched and the buffer ends flush against a PROT_NONE page, so an overrun by one byte kills the child (crash = violation). non-trivial = calls with an invalid argument, and all buffer cases",
     assumptions: &["descriptor numbers < 400 are audited", "procfs link bodies cannot be shorter than the sandbox path prefix, so their exhaustive part starts at 40 bytes"],
     lanes: |_| 16,
     run_lane,
